@@ -26,11 +26,18 @@ def repo(*p):
     return os.path.join(core.REPO, *p)
 
 
+def l1ctl_include():
+    inc = repo("include")
+    if not os.path.exists(os.path.join(inc, "l1ctl_proto.h")):
+        inc = "/repo/include"       # scratch copies made for negative controls carry src/ only
+    return inc
+
+
 def flags(mode):
     if mode == "fw":
         return ["--target=arm-none-eabi", "-mcpu=arm7tdmi", "-nostdinc", "-ffreestanding",
                 "-isystem", os.path.join(resource_dir(), "include"),
-                "-I", repo("src/target/firmware/include"), "-I", repo("include"),
+                "-I", repo("src/target/firmware/include"), "-I", l1ctl_include(),
                 "-I", repo("src/shared/libosmocore/include"), "-I", os.path.join(SHIM, "fw")]
     if mode == "host":
         return ["-I", repo("src/shared/libosmocore/include"), "-I", os.path.join(SHIM, "host", "a", "b")]
@@ -38,8 +45,10 @@ def flags(mode):
 
 
 class Field:
-    def __init__(self, node, tt):
-        self.node, self.name, self._tt = node, node.get("name", ""), tt
+    def __init__(self, node, tt, index=0):
+        # anonymous struct/union members are named by their position ("@3")
+        self.node, self.name, self._tt = node, node.get("name") or "@%d" % index, tt
+        self.anonymous = not node.get("name")
         self.bitfield = bool(node.get("isBitfield"))
         self._ct = None
 
@@ -53,7 +62,7 @@ class Field:
 class Record:
     def __init__(self, node, tt):
         self.id, self.tag, self.name = node["id"], node.get("tagUsed", "struct"), node.get("name", "")
-        self.fields = [Field(c, tt) for c in node.get("inner", []) if c.get("kind") == "FieldDecl"]
+        self.fields = [Field(c, tt, i) for i, c in enumerate(x for x in node.get("inner", []) if x.get("kind") == "FieldDecl")]
         self.packed = any(c.get("kind") == "PackedAttr" for c in node.get("inner", []))
         self.node = node
 
@@ -62,6 +71,21 @@ class Record:
             if f.name == name:
                 return f
         raise Unsupported("no field %s in %s %s" % (name, self.tag, self.name))
+
+    def find(self, name):
+        """path of field names reaching `name`, looking through anonymous struct/union members (C11 6.7.2.1p13)"""
+        for f in self.fields:
+            if f.name == name:
+                return [f.name]
+        for f in self.fields:
+            if f.anonymous:
+                from .ctype import TRecord as _TR
+                t = f.ctype
+                if isinstance(t, _TR):
+                    sub = t.rec.find(name)
+                    if sub:
+                        return [f.name] + sub
+        return None
 
 
 class TU:
@@ -78,6 +102,7 @@ class TU:
         self.globals = {}        # name -> VarDecl (file scope)
         self.enumval = {}        # id -> int
         self.field_parent = {}   # FieldDecl id -> Record
+        self.field_by_id = {}    # FieldDecl id -> Field
         self.func_ids = {}       # function name -> small positive int (code of a function pointer value)
         self._index(ast, top=True)
 
@@ -101,11 +126,12 @@ class TU:
                         last_anon = r
                     for f in r.fields:
                         self.field_parent[f.node["id"]] = r
+                        self.field_by_id[f.node["id"]] = f
                     self._index(c, parent_rec=c)
             elif k == "FieldDecl":
                 q = c["type"]["qualType"]
                 if last_anon is not None and ("(unnamed" in q or "(anonymous" in q):
-                    m = re.search(r"((?:struct|union) \((?:unnamed|anonymous)[^)]*\))", q)
+                    m = re.search(r"\((?:unnamed|anonymous)[^)]* at ([^)]*)\)", q)
                     if m:
                         self.tt.anon[m.group(1)] = last_anon
             elif k == "EnumDecl":
